@@ -52,10 +52,10 @@ LEVEL = "fault_enumeration"
 
 SHADOWED = ("int", "float", "len")            # what the generator covers
 OPS = (("compile", "f"), ("compile", "g"), ("check", "f"), ("check", "g"))
-LABELS_QUICK = ("f0", "f1", "g0", "g1", "g3")
+LABELS_QUICK = ("f0", "f1", "g1")
 LABELS_FULL = ("f0", "f1", "f2", "f3", "g0", "g1", "g2", "g3")
 KINDS = ("py", "typeerror", "linear", "leak")
-MODES = ("always", "once")
+MODES = ("once", "always")
 
 
 class _Marker:
@@ -161,12 +161,22 @@ def variants():
 
 
 def faults(quick: bool):
-    labels = LABELS_QUICK if quick else LABELS_FULL
+    """quick: 3 labels x 4 kinds, transient ('once') faults, + bad return of f
+    thorough: 8 labels x 4 kinds x {once}, persistent ('always') faults at the two
+    'between two uses' labels, bad return of f and g in both modes."""
     out = [None, {"kind": "rcheck", "label": None, "mode": "always"}]
-    for lab in labels:
+    if quick:
+        for lab in LABELS_QUICK:
+            for kind in KINDS:
+                out.append({"kind": kind, "label": lab, "mode": "once"})
+        out.append({"kind": "badret", "label": "fret", "mode": "once"})
+        return out
+    for lab in LABELS_FULL:
         for kind in KINDS:
-            for mode in MODES:
-                out.append({"kind": kind, "label": lab, "mode": mode})
+            out.append({"kind": kind, "label": lab, "mode": "once"})
+    for lab in ("f1", "g1"):
+        for kind in KINDS:
+            out.append({"kind": kind, "label": lab, "mode": "always"})
     for lab in ("fret", "gret"):
         for mode in MODES:
             out.append({"kind": "badret", "label": lab, "mode": mode})
@@ -202,6 +212,21 @@ def _shadow_names_in_repo() -> list[str]:
     with bm.mock_builtins(fn):
         inside = set(fn.__globals__) - before
     return sorted(inside)
+
+
+def _warm_up() -> None:
+    """Compile an unrelated comptime program once in the parent so that the (large)
+    lazily initialised compiler caches are shared by all forked images instead of being
+    rebuilt in each of them.  Irrelevant for the property: the observed module is
+    loaded afterwards, in each root image."""
+    import gc
+    from vlib import gload
+    _S.update(fault=None, fired=0, calls=0, mock_seen=0, mock_missing=0)
+    mod = gload.load(gen_source([], None), name="c23warm")
+    mod.g.compile_function()
+    gload.unload(mod)
+    gc.collect()
+    gc.freeze()
 
 
 def init(root) -> None:
@@ -294,6 +319,7 @@ def run(ctx) -> dict:
         raise RuntimeError(f"mock_builtins shadows {found}; the C23 generator covers {sorted(SHADOWED)} - extend it")
     depth = 2 if ctx.quick else 3
     roots = [[v, f] for f in faults(ctx.quick) for v in variants()]
+    _warm_up()
     res = histx.explore(roots, len(OPS), depth, init, step, workers=ctx.workers, split=1)
 
     outcomes: dict[str, int] = {}
@@ -302,13 +328,11 @@ def run(ctx) -> dict:
     nontrivial = set()
     failed_then_ok = 0
     samples = []
-    prev_failed: dict = {}
     # report the shortest history first
     recs = sorted(res.records, key=lambda r: (len(r[1]), r[0], r[1]))
     by_node = {(ri, h): obs for ri, h, obs in res.records}
     for ri, h, obs in recs:
         variant, fault = roots[ri]
-        cls = obs["out"].split(":")[0] if obs["out"].startswith("exc") else obs["out"]
         outcomes[obs["out"]] = outcomes.get(obs["out"], 0) + 1
         if obs["calls"]:
             n_traced += 1
@@ -330,7 +354,6 @@ def run(ctx) -> dict:
                 {"variant": variant, "fault": fault, "history": list(h)})
         if len(samples) < 6 and obs["fired"] and len(h) == 2 and ri % 37 == 0:
             samples.append({"variant": variant, "fault": fault_str(fault), "history": hist_str(h), "obs": obs})
-        del cls
     if mock_missing:
         # tracing ran without the mocks in the module globals: the generated program no
         # longer exercises the anchored mechanism -> the check would be vacuous
